@@ -61,9 +61,9 @@ def gen_2d(r, i, tier):
                 "q": {"name": None, "id": 0, "e": ["f", 0]}, "value": inner, "nan": {"k": "Count"}}
     else:
         cnt = {"k": "Count"}
-        inner = {"k": "Bin", "num": r.choice([2, 3, 4]), "low": 0.0, "high": 2.0, "q": {"name": None, "id": 0, "e": ["f", 1]},
+        inner = {"k": "Bin", "num": r.choice([2, 3, 4, 7, 10]), "low": 0.0, "high": r.choice([2.0, 2.0, 1.0, 0.7]), "q": {"name": None, "id": 0, "e": ["f", 1]},
                  "value": cnt, "under": cnt, "over": cnt, "nan": cnt}
-        spec = {"k": "Bin", "num": r.choice([2, 3, 5]), "low": -1.0, "high": 1.5, "q": {"name": None, "id": 0, "e": ["f", 0]},
+        spec = {"k": "Bin", "num": r.choice([2, 3, 5, 7, 10]), "low": -1.0, "high": r.choice([1.5, 1.5, 2.0]), "q": {"name": None, "id": 0, "e": ["f", 0]},
                 "value": inner, "under": cnt, "over": cnt, "nan": cnt}
     ops = [("new", spec)]
     vals = [-1.5, -1.0, -0.5, 0.0, 0.25, 0.5, 1.0, 1.25, 1.5, 2.0, 2.5, 3.0, float("nan")]
@@ -122,6 +122,15 @@ def check_2d(h, sparse, irr=False):
             bad("the x projection holds exactly the in-range weights  [C13_projection]", "x projection %r, cells give %r" % ([v.entries for v in hx.values], wantx))
         if [v.entries for v in hy.values] != wanty:
             bad("the y projection holds exactly the in-range weights  [C13_projection]", "y projection %r, cells give %r" % ([v.entries for v in hy.values], wanty))
+        # the ranges are the edges of the two axes: one more edge than bins, equal to bin_edges()
+        for nm_, got_, want_ in (("x", xr, h.bin_edges()), ("y", yr, h.values[0].bin_edges())):
+            got_, want_ = [float(v) for v in got_], [float(v) for v in want_]
+            if len(got_) != len(want_) or any(not close(a_, b_) for a_, b_ in zip(got_, want_)):
+                bad("xy_ranges_grid returns the bin edges of both axes  [C13_grid]",
+                    "%s ranges %r, bin_edges %r" % (nm_, got_[:8], want_[:8]))
+        if tuple(grid.shape) != (len(cells[0]), len(cells)):
+            bad("the 2-D grid has one cell per pair of bins  [C13_grid]", "grid shape %r for %d x %d bins" % (grid.shape, len(cells), len(cells[0])))
+            return fails
         g = [[float(grid[j][i]) for j in range(len(cells[0]))] for i in range(len(cells))]
         if g != cells:
             bad("the 2-D grid holds exactly the in-range weights  [C13_grid]", "grid %r, cells %r" % (g, cells))
